@@ -235,13 +235,40 @@ func (e *c20Env) runCase(r *Run, c *Case, rootName string, nodes []*c20Node, wit
 	}
 	line += " u"
 
+	// The hooks directory as the operator gets it: any spelling of the path (trailing slash, "/./",
+	// "x/../", relative to the current directory) goes through RequireExistingDirectory first
+	// (bootstrap.go), and its answer is what the walk and the hook manager are given.
+	canon := workingDir
+	spelled := workingDir
+	switch c.Idx % 5 {
+	case 1:
+		spelled = workingDir + "/"
+	case 2:
+		spelled = filepath.Dir(workingDir) + "/./" + rootName
+	case 3:
+		spelled = workingDir + "/../" + rootName
+	case 4:
+		if cwd, err := os.Getwd(); err == nil {
+			if rel, err := filepath.Rel(cwd, workingDir); err == nil {
+				spelled = rel
+			}
+		}
+	}
+	c.Note(fmt.Sprintf("hooksdir-spelling:%d", c.Idx%5))
+	if wd, err := utils_file.RequireExistingDirectory(spelled); err != nil {
+		c.Op(line, "walk=err-require-dir")
+		return
+	} else {
+		workingDir = wd
+	}
+
 	// 1. the walk
 	paths, err := utils_file.RecursiveGetExecutablePaths(workingDir)
 	if err != nil {
 		c.Op(line, "walk=err")
 		return
 	}
-	rels := c20Rels(workingDir, paths)
+	rels := c20Rels(canon, paths)
 	c.Op(line, "walk="+joinStrs(rels))
 	c.Oracle("discover got=" + joinStrs(rels))
 	if !withInit {
@@ -278,7 +305,7 @@ func (e *c20Env) runCase(r *Run, c *Case, rootName string, nodes []*c20Node, wit
 	}
 	if ierr != nil {
 		failed = "1"
-		text := strings.ReplaceAll(ierr.Error(), workingDir+"/", "")
+		text := strings.ReplaceAll(strings.ReplaceAll(ierr.Error(), workingDir+"/", ""), canon+"/", "")
 		// the hook the error names: a file name of the tree that appears quoted; if the wording has no
 		// quoted file name, any file name that appears as a whole path token
 		for _, f := range files {
@@ -362,7 +389,7 @@ func (e *c20Env) classify(c *Case, rootName string, nodes []*c20Node) {
 }
 
 func runC20(r *Run) {
-	r.Rule = "random directory trees materialised on disk (hooks-directory names incl. lib/.hooks/.git, depth <= 4, 0-7 entries per directory from pools of 32 file names and 18 directory names so that names collide across directories; modes from a biased pool plus uniformly random 9-bit modes incl. group/other-only execute bits; excluded extensions, hidden files, lib/hidden directories at any depth, byte-order traps such as a.sh vs a/b); every file is a bash script that logs its invocation and prints a valid config (5 variants), an invalid one (validated against the real LoadAndValidate) or fails (exit 3 / valid output then exit 1 / kill -9). Real RecursiveGetExecutablePaths, then real hook.Manager.Init. Thorough adds the exhaustive scope {3 root names} x {directory chains of length 0-2 over s/lib/.g} x {8 file names} x {5 modes} plus all 512 modes for one file. Non-trivial: >= 2 files of which some but not all carry an execute bit, or a non-default hooks-directory name with an executable file; distinct = distinct tree lines."
+	r.Rule = "random directory trees materialised on disk (hooks-directory names incl. lib/.hooks/.git, depth <= 4, 0-7 entries per directory from pools of 32 file names and 18 directory names so that names collide across directories; modes from a biased pool plus uniformly random 9-bit modes incl. group/other-only execute bits; excluded extensions, hidden files, lib/hidden directories at any depth, byte-order traps such as a.sh vs a/b); every file is a bash script that logs its invocation and prints a valid config (5 variants), an invalid one (validated against the real LoadAndValidate) or fails (exit 3 / valid output then exit 1 / kill -9). The hooks directory is given in one of five spellings (canonical, trailing slash, /./, name/../name, relative to the current directory) to the real RequireExistingDirectory (as bootstrap.go does), whose answer goes to the real RecursiveGetExecutablePaths, then real hook.Manager.Init. Thorough adds the exhaustive scope {3 root names} x {directory chains of length 0-2 over s/lib/.g} x {8 file names} x {5 modes} plus all 512 modes for one file. Non-trivial: >= 2 files of which some but not all carry an execute bit, or a non-default hooks-directory name with an executable file; distinct = distinct tree lines."
 	e := &c20Env{euid: os.Geteuid()}
 	e.okOut = c20Validate(c20OkOutputs, true)
 	e.badOut = c20Validate(c20InvalidOutputs, false)
